@@ -16,13 +16,17 @@ abbrev AssertsEnabled (ae : Bool) : Prop := ae = true
 /-- **the sealed test precedes every write** — in the three mutators the property names the first effect is the sealed
     test (only `set` has an escape, its internal `bypass` argument), and every public entry point that reaches them
     (`cfg.name = v`, `add_pretasks_from`), run on a sealed configuration with no escape condition holding, is rejected
-    before anything is written or any cached identifier is forgotten. -/
+    before anything is written or any cached identifier is forgotten; and so is **every entry point of the generated list**
+    `entryPointsSrc` — all methods of the public object and the setter / deleter of the per-parameter property from which a
+    write of a value, of the meta flag or of the pre-tasks is reachable (a new entry point without the sealed test fails
+    this obligation even if no generator exercises it). -/
 theorem mutators_check_sealed_first :
     (mutSrc .set).head? = some (.checkSealed .raise ["bypass"]) ∧
     (mutSrc .setMeta).head? = some (.checkSealed .assert []) ∧
     (mutSrc .addPretasks).head? = some (.checkSealed .raise []) ∧
     (∀ m ∈ [Mut.set, .setMeta, .addPretasks, .setattr, .addPretasksFrom],
-        interp true mutSrc true 16 noEscape (mutSrc m) = ⟨[], true⟩) := by decide
+        interp true mutSrc true 16 noEscape (mutSrc m) = ⟨[], true⟩) ∧
+    (∀ ep ∈ entryPointsSrc, interp true mutSrc true 16 noEscape ep.2 = ⟨[], true⟩) := by decide
 
 /-- … for every assignment of the escape conditions other than the internal `bypass` (whatever else the configuration
     is — loaded from disk, a task, …): no state-dependent way around the test. -/
@@ -42,10 +46,11 @@ theorem mutators_write_when_unsealed :
 
 /-- **what `Sealer` does per node**: it descends only into configurations that are not sealed yet, `postprocess` runs
     after everything below the configuration was walked (`walkPlanSrc`), generates the values through `set(…,
-    bypass=True)` and marks the configuration sealed as its last effect. -/
+    bypass=True)` — its only other effect — and marks the configuration sealed. -/
 theorem seal_marks_after_children :
     sealerSrc.descendsOnlyUnsealed = true ∧ walkPlanSrc.postprocessLast = true ∧
-    sealerSrc.post = [.delegate .set true, .write .sealedFlag] := by decide
+    Eff.write .sealedFlag ∈ sealerSrc.post ∧
+    (∀ e ∈ sealerSrc.post, e = .write .sealedFlag ∨ e = .delegate .set true) := by decide
 
 /-- **identifiers are cached only when sealed** (and recomputed on every request otherwise), for both identifiers. -/
 theorem identifiers_cached_only_when_sealed :
